@@ -98,6 +98,42 @@ func SignTxAs(txCfg client.TxConfig, chainID string, key, signWith Key, accNum, 
 	return txCfg.TxEncoder()(b.GetTx())
 }
 
+// SignTxMulti builds a transaction with several signers (message signers in order of first
+// appearance, then the fee payer if it is not one of them), each signing in direct mode.
+func SignTxMulti(txCfg client.TxConfig, chainID string, keys []Key, nums, seqs []uint64, feePayer sdk.AccAddress, timeoutHeight uint64, memo string, msgs ...sdk.Msg) ([]byte, error) {
+	b := txCfg.NewTxBuilder()
+	if err := b.SetMsgs(msgs...); err != nil {
+		return nil, err
+	}
+	b.SetGasLimit(1e8)
+	b.SetTimeoutHeight(timeoutHeight)
+	b.SetMemo(memo)
+	if feePayer != nil {
+		b.SetFeePayer(feePayer)
+	}
+	mode := signing.SignMode_SIGN_MODE_DIRECT
+	sigs := make([]signing.SignatureV2, len(keys))
+	for i, k := range keys {
+		sigs[i] = signing.SignatureV2{PubKey: k.Pub(), Data: &signing.SingleSignatureData{SignMode: mode}, Sequence: seqs[i]}
+	}
+	if err := b.SetSignatures(sigs...); err != nil {
+		return nil, err
+	}
+	for i, k := range keys {
+		sig, err := clienttx.SignWithPrivKey(context.Background(), mode, xauthsigning.SignerData{
+			Address: k.AddrStr(), ChainID: chainID, AccountNumber: nums[i], Sequence: seqs[i], PubKey: k.Pub(),
+		}, b, k.Priv, txCfg, seqs[i])
+		if err != nil {
+			return nil, err
+		}
+		sigs[i] = sig
+	}
+	if err := b.SetSignatures(sigs...); err != nil {
+		return nil, err
+	}
+	return txCfg.TxEncoder()(b.GetTx())
+}
+
 // Account returns (account number, sequence) of an address in ctx.
 func (n *Node) Account(ctx sdk.Context, addr sdk.AccAddress) (uint64, uint64, bool) {
 	acc := n.App.AccountKeeper.GetAccount(ctx, addr)
